@@ -14,8 +14,8 @@ def validId (n id : Nat) : Bool := id < n || (100 ≤ id && id < 100 + numApp)
 structure FibSt where
   n : Nat
   keys : List Nat
-  t : Tables
-  fib : Fib
+  /-- the model: `RState` of Model.lean (tables, installer, its own replayed routes) -/
+  rs : RState
   /-- spec side: replay of every command the implementation emitted in this history -/
   routes : Spec.Routes := []
 
@@ -43,14 +43,14 @@ def dumpCmds (cmds : List Cmd) : String :=
   dashIfEmpty (",".intercalate ((cmds.mergeSort fun a b => leKey (cmdKey a) (cmdKey b)).map cmdText))
 
 def dumpTables (s : FibSt) : String :=
-  let rib := s.t.rib.reachable.map fun e =>
+  let rib := s.rs.t.rib.reachable.map fun e =>
     ((idxOfKey s.keys e.dest).getD 0,
       s!"{optStr (idxOfKey s.keys e.dest)}:{optStr (if e.best.low1 ≥ Spec.infinity then none else idxOfKey s.keys e.best.nh1)}:{e.best.low1}:{optStr (if e.best.low2 ≥ Spec.infinity then none else idxOfKey s.keys e.best.nh2)}:{e.best.low2}")
   let rib := (rib.mergeSort fun a b => a.1 ≤ b.1).map (·.2)
-  let nbr := s.t.nbrs.map fun (k, nb) => ((idxOfKey s.keys k).getD 0, s!"{optStr (idxOfKey s.keys k)}:{nb.face}")
+  let nbr := s.rs.t.nbrs.map fun (k, nb) => ((idxOfKey s.keys k).getD 0, s!"{optStr (idxOfKey s.keys k)}:{nb.face}")
   let nbr := (nbr.mergeSort fun a b => a.1 ≤ b.1).map (·.2)
   let pfx := (List.range s.n).filterMap fun x =>
-    let ids := (pget s.t.pfx (s.keys.getD x 0)).getD []
+    let ids := (pget s.rs.t.pfx (s.keys.getD x 0)).getD []
     if ids.isEmpty then none
     else some s!"{x}:{".".intercalate ((Spec.sortNat ids).map toString)}"
   s!"rib={dashIfEmpty (",".intercalate rib)} nbr={dashIfEmpty (",".intercalate nbr)} pfx={dashIfEmpty (",".intercalate pfx)}"
@@ -58,10 +58,6 @@ def dumpTables (s : FibSt) : String :=
 def dumpFib (cmds : List Cmd) (s : FibSt) : String := s!"cmds={dumpCmds cmds} {dumpTables s}"
 
 def prefixOfKeys (keys : List Nat) (k : Nat) : Nat := (idxOfKey keys k).getD 999
-
-def runFibUpdate (s : FibSt) : FibSt × List Cmd :=
-  let (fib', cmds) := fibUpdate (prefixOfKeys s.keys) s.t s.fib
-  ({ s with fib := fib' }, cmds)
 
 def parseAdvItems (n : Nat) (keys : List Nat) (txt : String) : Option (List C18.AdvEntry) :=
   if txt == "-" then some [] else
@@ -272,77 +268,57 @@ def stepFib (s : FibSt) (f : List String) (got : String) : StepResult St :=
   let s := { s with routes := routes' }
   let skip : StepResult St := { st := .fib s, expected := some "skip", spec := fails }
   let keyOf (w : Nat) := s.keys.getD w 0
-  let finish (s' : FibSt) (cmds : List Cmd) (cov : List String) : StepResult St :=
+  let prefixOf := prefixOfKeys s.keys
+  let finish (rs' : RState) (cmds : List Cmd) (cov : List String) : StepResult St :=
+    let s' := { s with rs := rs' }
     { st := .fib s', expected := some (dumpFib cmds s'), spec := fails,
       cov := cov ++ (if cmds.any (fun c => match c with | .register .. => true | _ => false) then ["cmd-register"] else []) ++
                     (if cmds.any (fun c => match c with | .unregister .. => true | _ => false) then ["cmd-unregister"] else []) ++
-                    (if s'.fib.prefixes.any (fun (_, es) => es.length ≥ 3) then ["three-faces"] else []) ++
-                    (if (desired (prefixOfKeys s'.keys) s'.t).any (fun (_, fes) => fes.length ≥ 4) then ["multi-homed"] else []),
-      nontrivial := !s'.fib.prefixes.isEmpty }
+                    (if rs'.fib.prefixes.any (fun (_, es) => es.length ≥ 3) then ["three-faces"] else []) ++
+                    (if (desired prefixOf rs'.t).any (fun (_, fes) => fes.length ≥ 4) then ["multi-homed"] else []),
+      nontrivial := !rs'.fib.prefixes.isEmpty }
+  /- one router-level event of the model (`RState.stepCmds`: tables + fibUpdate iff dirty) -/
+  let event (ev : RouterEvent) (tagDirty tagClean : String) : StepResult St :=
+    let dirty := (s.rs.t.stepDirty ev).2
+    let (rs', cmds) := s.rs.stepCmds prefixOf ev
+    finish rs' cmds [if dirty then tagDirty else tagClean]
   match f with
   | ["ping", w, face, act] =>
     match w.toNat?, face.toNat? with
     | some w, some face =>
       if !(1 ≤ w && w < s.n) || face == 0 then skip else
-      let (nbrs', dirty) := recvPing s.t.nbrs (keyOf w) face (act == "1")
-      let s1 := { s with t := { s.t with nbrs := nbrs' } }
-      if dirty then
-        let (s2, cmds) := runFibUpdate s1
-        finish s2 cmds ["ping-face-change"]
-      else finish s1 [] ["ping-same-face"]
+      event (.ping (keyOf w) face (act == "1")) "ping-face-change" "ping-same-face"
     | _, _ => skip
   | [advOp, w, items] =>
     if advOp != "adv" && advOp != "advrace" then { st := .fib s, expected := some "bad-op", spec := fails } else
     match w.toNat?, parseAdvItems s.n s.keys items with
     | some w, some adv =>
       if !(1 ≤ w && w < s.n) then skip else
-      match pget s.t.nbrs (keyOf w) with
+      match pget s.rs.t.nbrs (keyOf w) with
       | none => skip
       | some _ =>
-        if advOp == "adv" then
-          let (rib', d) := C18.ribUpdate s.t.self s.t.rib (keyOf w) adv
-          let s1 := { s with t := { s.t with rib := rib' } }
-          if d then
-            let (s2, cmds) := runFibUpdate s1
-            finish s2 cmds ["adv-dirty"]
-          else finish s1 [] ["adv-clean"]
+        if advOp == "adv" then event (.adv (keyOf w) adv) "adv-dirty" "adv-clean"
         else
-          -- the neighbour dies before ribUpdate runs: ns.Advert is nil, ribUpdate returns
-          let (rib', d) := C18.ribDead s.t.rib (keyOf w)
-          let s1 := { s with t := { s.t with rib := rib', nbrs := perase s.t.nbrs (keyOf w) } }
-          if d then
-            let (s2, cmds) := runFibUpdate s1
-            finish s2 cmds ["advrace"]
-          else finish s1 [] ["advrace"]
+          -- the neighbour dies before ribUpdate runs: ns.Advert is nil and ribUpdate returns
+          event (.dead (keyOf w)) "advrace" "advrace"
     | _, _ => skip
   | ["dead", w] =>
     match w.toNat? with
     | some w =>
       if !(1 ≤ w && w < s.n) then skip else
-      match pget s.t.nbrs (keyOf w) with
+      match pget s.rs.t.nbrs (keyOf w) with
       | none => skip
-      | some _ =>
-        let (rib', d) := C18.ribDead s.t.rib (keyOf w)
-        let s1 := { s with t := { s.t with rib := rib', nbrs := perase s.t.nbrs (keyOf w) } }
-        if d then
-          let (s2, cmds) := runFibUpdate s1
-          finish s2 cmds ["dead-dirty"]
-        else finish s1 [] ["dead-clean"]
+      | some _ => event (.dead (keyOf w)) "dead-dirty" "dead-clean"
     | none => skip
   | ["papply", x, reset, adds, rems] =>
     match x.toNat? with
     | some x =>
       if !(x < s.n) then skip else
-      let (pfx', dirty) := pfxApply s.t.pfx (keyOf x) (reset == "1") (parseIds s.n adds) (parseIds s.n rems)
-      let s1 := { s with t := { s.t with pfx := pfx' } }
-      if dirty then
-        let (s2, cmds) := runFibUpdate s1
-        finish s2 cmds ["papply-dirty"]
-      else finish s1 [] ["papply-clean"]
+      event (.papply (keyOf x) (reset == "1") (parseIds s.n adds) (parseIds s.n rems)) "papply-dirty" "papply-clean"
     | none => skip
   | ["fib"] =>
-    let (s2, cmds) := runFibUpdate s
-    finish s2 cmds ["fib"]
+    let (rs', cmds) := s.rs.fibUpdateCmds prefixOf
+    finish rs' cmds ["fib"]
   | _ => skip
 
 def stepLog (s : LogSt) (f : List String) (got : String) : StepResult St :=
@@ -420,8 +396,7 @@ def step (st : St) (op : String) (got : String) : StepResult St :=
       | some keys =>
         let okKeys := keys.length == n && keys.eraseDups.length == n && !keys.contains 0
         let self := keys.getD 0 0
-        { st := .fib { n := n, keys := keys, fib := Fib.empty,
-                       t := { self := self, rib := (C18.Router.start self).rib, nbrs := [], pfx := [] } },
+        { st := .fib { n := n, keys := keys, rs := RState.start self },
           expected := none,
           spec := if okKeys then [] else [⟨"A-hash", "keys", s!"router keys not distinct / zero / wrong count: {got}"⟩] }
       | none => { st := .none, expected := some "ok <keys>" }
